@@ -411,7 +411,7 @@ def gen_tree(rng, tid, tier, flavour="plain"):
         for _ in range(rng.choice([1, 1, 2])):
             pairs = [(A, R) for A in range(1, n) for R in inner if R < A
                      and not any(f.get("ref") is not None for f in classes[A]["own"])]
-            late = [(A, R) for A, R in pairs if pos[R] > pos[A]]      # R is processed after A (region of finding F52)
+            late = [(A, R) for A, R in pairs if pos[R] > pos[A]]      # R is processed after A (region of the repaired finding F57)
             if not pairs:
                 break
             A, R = rng.choice(late if late and rng.random() < 0.6 else pairs)
@@ -541,8 +541,8 @@ def fixed_trees():
                    {"cls": 2, "args": {"a": 1, "b": 2, "c": 3}}, {"cls": 3, "args": {"a": 1, "b": 2, "c": 3, "d": 4}}],
                   [cfg("auto", False), cfg("union", False), cfg("auto", True, overrides={"b": {"rename": "rb"}}),
                    cfg("union", True)], stage0=2))
-    # F52: Base{a} / X(Base){b} / B(Base){c} / B1(B){d} / A(X){r4: B}: depth-first, A is processed before B, so A's own
-    # hooks bind B's plain hooks and a B1 inside an A comes back as a B
+    # (was F57, repaired) Base{a} / X(Base){b} / B(Base){c} / B1(B){d} / A(X){r4: B}: depth-first, A is processed before B;
+    # A's own hooks must not bind B's plain hooks - a B1 inside an A has to come back as a B1
     out.append(mk(-10, "attrs",
                   [node(-1, _fld("a")), node(0, _fld("b")), node(0, _fld("c")), node(2, _fld("d")),
                    node(1, _fld("r4", ref=2))],
@@ -767,9 +767,10 @@ def preorder(T, c=0):
 
 
 def early_bound_loss(T, spec):
-    """region of finding F52, judged on the instance alone: somewhere inside it an instance of class H holds, under a
-    field typed R (another class of the tree), an instance of a strict descendant of R, where R is processed AFTER H by the
-    depth-first walk - H's own hooks were generated (and bound R's plain hooks) before the strategy got to R"""
+    """region of the repaired finding F57, judged on the instance alone (evidence histogram only): somewhere inside it an
+    instance of class H holds, under a field typed R (another class of the tree), an instance of a strict descendant of R,
+    where R is processed AFTER H by the depth-first walk - before the repair H's own hooks were generated (and bound R's
+    plain hooks) before the strategy got to R"""
     pos = {c: i for i, c in enumerate(preorder(T))}
     H = spec["cls"]
     for f in eff_fields(T, H):
@@ -795,7 +796,8 @@ def run_workers(trees, seeds, tag, chunk=100, parallel=8):
     import threading
 
     env0 = dict(os.environ)
-    env0["PYTHONPATH"] = "/verif:" + os.environ.get("CATTRS_SRC", "/repo/src")
+    root = os.path.dirname(os.path.dirname(os.path.dirname(os.path.abspath(__file__))))
+    env0["PYTHONPATH"] = root + ":" + os.environ.get("CATTRS_SRC", "/repo/src")
     env0["PYTHONDONTWRITEBYTECODE"] = "1"
     jobs = [(s, i) for i in range(0, len(trees), chunk) for s in seeds]
     outs, sem = {}, threading.Semaphore(parallel)
@@ -901,8 +903,8 @@ def _install_findings():
             return False
 
     @framework.finding("subclasses-union-reapplied-forbid")
-    def f53(case):
-        """F53: union strategy + forbid_extra_keys, no `overrides`, the strategy applied to a converter (or a copy of one)
+    def f58(case):
+        """F58: union strategy + forbid_extra_keys, no `overrides`, the strategy applied to a converter (or a copy of one)
         it had been applied to before: KeyError while structuring an instance of a class that had subclasses at the EARLIER
         application (its captured hook is the earlier union hook, which looks for the tag the new one has popped)"""
         try:
@@ -914,20 +916,6 @@ def _install_findings():
             earlier = step_tree(T, "a") if step in ("c", "d") else T
             D = T["instances"][case["inst"]]["cls"]
             return D < len(earlier["classes"]) and bool(children(earlier, D))
-        except Exception:  # noqa: BLE001
-            return False
-
-    @framework.finding("subclasses-auto-class-typed-field-early-bound")
-    def f52(case):
-        """F52: automatic strategy; x holds (possibly nested) an instance of a strict descendant of R under a field typed
-        R, inside an instance of a class the depth-first walk processes BEFORE R (`early_bound_loss`); the round trip
-        returns x's own class but an unequal value (the nested instance came back as a plain R)"""
-        try:
-            T, cfg = case["tree"], case["config"]
-            if not (case.get("kind") == "pair" and cfg["strategy"] == "auto" and T.get("refs")):
-                return False
-            inst = T["instances"][case["inst"]]
-            return case["impl"] == f"ok:{inst['cls']}:0" and early_bound_loss(T, inst)
         except Exception:  # noqa: BLE001
             return False
 
@@ -946,18 +934,12 @@ PENDING_FINDINGS = [
      "what": "Literal discriminator attribute with a default + omit_if_default: unstructure leaves the key out and the "
              "disambiguation function reads data[<discriminator>] unconditionally: KeyError (also for a plain Union; "
              "C12's LitKeysPresent hypothesis)"},
-    {"id": "F53", "property": "C14", "kind": "finding", "signature": "subclasses-union-reapplied-forbid",
+    {"id": "F58", "property": "C14", "kind": "finding", "signature": "subclasses-union-reapplied-forbid",
      "what": "include_subclasses with a union strategy applied a second time to the same converter (or to a copy of it, e.g. "
              "to pick up classes defined since) with forbid_extra_keys=True and no overrides: the second application "
              "captures the FIRST application's union structure hook as the class's own hook; the new union hook pops the tag "
              "and the old one then fails to find it: KeyError('_type') for every instance of a class that already had "
              "subclasses at the first application"},
-    {"id": "F52", "property": "C14", "kind": "finding", "signature": "subclasses-auto-class-typed-field-early-bound",
-     "what": "include_subclasses, automatic strategy: the per-class hooks are generated class by class in depth-first order, "
-             "so a field typed as a class R of the hierarchy that is processed LATER (a later sibling branch, or a "
-             "descendant) is bound to R's plain hooks: Base{a} / A(Base){child: B} / B(Base){b} / B1(B){c}: "
-             "A(1, B1(2, 3, 4)) unstructures to {'a': 1, 'child': {'a': 2, 'b': 3}} and comes back as A(1, B(2, 3)) - the "
-             "nested subclass is silently lost (the union strategy forces run-time dispatch and is not affected)"},
 ]
 
 
@@ -1152,6 +1134,8 @@ def evaluate(chk, drv, trees, wres, seeds, count=True):
                             if count and s == s0:
                                 chk.note("impl-only:" + canon(out).split(":")[0] +
                                          (":" + out.split(":")[2] if out.startswith("ok:") else ""))
+                                if cfg["strategy"] == "auto" and early_bound_loss(T, T["instances"][ii]):
+                                    chk.note("impl-only:late-processed-field-type(former F57 region)")
                             continue
                         if order_dep[pi]:
                             if count and s == s0:
